@@ -86,6 +86,7 @@ func cmdHarness(args []string) int {
 	solvers := fs.String("solvers", "z3new,cvc5,z3", "solver order")
 	noReplay := fs.Bool("noreplay", false, "skip native replay")
 	propF := fs.String("prop", "", "restrict Cxx.-prefixed assertions to this property")
+	loopB := fs.Int("loopbound", 0, "loop unrolling bound (0 = default)")
 	fs.Parse(args[1:])
 	name := args[0]
 	t0 := time.Now()
@@ -105,7 +106,7 @@ func cmdHarness(args []string) int {
 	for _, f := range kf.Findings {
 		known[f.ID] = true
 	}
-	hr := e.RunHarness(*propF, name, *tier, HarnessOpts{Workers: *workers, TimeoutMs: *tmo, Solvers: strings.Split(*solvers, ",")}, known)
+	hr := e.RunHarness(*propF, name, *tier, HarnessOpts{Workers: *workers, TimeoutMs: *tmo, Solvers: strings.Split(*solvers, ","), LoopBound: *loopB}, known)
 	printHarness(hr, true)
 	if !*noReplay && len(hr.Viol) > 0 {
 		rp := newReplayer()
